@@ -340,6 +340,7 @@ WebSocketMsg WebSocket::receive()
 			break;
 		case 8: // connection close
 		{
+			msg = WebSocketMsg(); // fragments received so far belong to a message that will never be completed
 			if (buffer.length() >= 2) {
 				_code = (buffer[0] << 8) | buffer[1];
 				buffer.remove(0, 2);
